@@ -88,7 +88,12 @@ fn lookup(name: &str) -> Option<(&'static str, &'static [u8])> {
 /// `std` is supported.
 #[cfg(feature = "std")]
 mod global {
-    use std::{string::String, string::ToString, sync::RwLock, vec::Vec};
+    use std::{string::String, string::ToString, vec::Vec};
+
+    #[cfg(jiff_verif)]
+    use crate::verif::RwLock;
+    #[cfg(not(jiff_verif))]
+    use std::sync::RwLock;
 
     use crate::{tz::TimeZone, util::utf8};
 
